@@ -209,21 +209,30 @@ def has_origin(origins, kind, pred):
 def from_param_field(name, *fields, exact=True):
     """subject predicate: value derives from parameter/capture `name` with exactly (or starting with) this field path"""
     def pred(origins, _x=None):
+        hit = False
         for o in origins:
-            if o[0] == "param" and o[1] == name:
-                if (tuple(o[2]) == tuple(fields)) if exact else (tuple(o[2][: len(fields)]) == tuple(fields)):
-                    return True
-        return False
+            if o[0] in ("const", "promoted"):
+                continue
+            if o[0] == "param" and o[1] == name and ((tuple(o[2]) == tuple(fields)) if exact else (tuple(o[2][: len(fields)]) == tuple(fields))):
+                hit = True
+            else:
+                return False
+        return hit
     return pred
 
 
 def from_call(*callees, whole=True):
     """subject predicate: the value IS the result of one of these calls (whole=True: not a field/payload of it)"""
     def pred(origins, _x=None):
+        hit = False
         for o in origins:
+            if o[0] in ("const", "promoted"):
+                continue
             if o[0] == "call" and ends(o[1], *callees) and (not whole or not o[3]):
-                return True
-        return False
+                hit = True
+            else:
+                return False   # the value can also come from somewhere else: a test of it proves nothing about the call
+        return hit
     return pred
 
 
